@@ -311,10 +311,13 @@ func checkBatchExpiredFlag(c *Ctx, rule string) {
 	// callbacks with a slice argument: every append feeding it must be behind flag==false and a comma-ok hit
 	n := 0
 	for _, fn := range p.FuncsInPkg("queue") {
+		if fn.Parent() == nil {
+			fn = p.View(fn) // the list may be filled by helpers of the package
+		}
 		for _, b := range fn.Blocks {
 			for _, ins := range b.Instrs {
 				ci, ok := ins.(ssa.CallInstruction)
-				if !ok || !callInvokesParam(ci, fn) || !hasSliceArg(ci) {
+				if !ok || !callInvokesParam(ci, fn) || !hasSliceArg(ci) || len(p.InlinedFrom(ins)) > 0 {
 					continue
 				}
 				var sl ssa.Value
